@@ -892,6 +892,8 @@ func ruleLibReflect(c *Ctx, r *R) {
 						emit("reflect.Append:elem", call, false, "appended values are not built at the call", "")
 					}
 				case "Call", "CallSlice":
+					// the function value must not be nil: reflect panics with "call of nil function"
+					emit("reflect."+m+":non-nil-func", call, x.funcNonNil(fn, args[0], call), "precondition: the function value is not nil - an IsNil test before the call, or before the wrapper that makes the call is created (a nil func field or map element of a bridged Go value is an ordinary host value: `job.OnDone(1)` with OnDone == nil panics with `call of nil function`)", "")
 					// every store into the argument slice must be typed
 					n := 0
 					for _, st := range storesInto(args[1]) {
@@ -1174,6 +1176,68 @@ func (x *rfx) nonNegative(fn *ssa.Function, v ssa.Value, use ssa.Instruction) bo
 						}
 					}
 				}
+			}
+		}
+	}
+	return false
+}
+
+// funcNonNil: the receiver of Call/CallSlice is known not to be a nil func: guarded by IsNil here, or - when the
+// call sits in a closure over a variable of the enclosing function - the closure is created only on the side of an
+// IsNil test of that variable where it is false.
+func (x *rfx) funcNonNil(fn *ssa.Function, recv ssa.Value, use ssa.Instruction) bool {
+	if x.guardedByMethod(fn, recv, use, true, "IsNil") {
+		return true
+	}
+	ld, ok := recv.(*ssa.UnOp)
+	if !ok {
+		return false
+	}
+	fv, ok := ld.X.(*ssa.FreeVar)
+	if !ok {
+		return false
+	}
+	cell := freeVarBinding(fv)
+	parent := fn.Parent()
+	if cell == nil || parent == nil {
+		return false
+	}
+	var mk *ssa.MakeClosure
+	for _, b := range parent.Blocks {
+		for _, ins := range b.Instrs {
+			if mc, ok := ins.(*ssa.MakeClosure); ok && mc.Fn == ssa.Value(fn) {
+				mk = mc
+			}
+		}
+	}
+	if mk == nil {
+		return false
+	}
+	for _, b := range parent.Blocks {
+		iff, ok := b.Instrs[len(b.Instrs)-1].(*ssa.If)
+		if !ok {
+			continue
+		}
+		call, ok := iff.Cond.(*ssa.Call)
+		if !ok || isReflectFn(call.Call.StaticCallee(), "IsNil") == "" {
+			continue
+		}
+		a := loadAddr(call.Call.Args[0])
+		if a != ssa.Value(cell) {
+			continue
+		}
+		// no store to the cell between the test and the closure is checked coarsely: the false side dominates the
+		// closure and contains no store to the cell
+		f := b.Succs[1]
+		if len(f.Preds) == 1 && f.Dominates(mk.Block()) {
+			stored := false
+			for _, ref := range *cell.Referrers() {
+				if st, ok := ref.(*ssa.Store); ok && f.Dominates(st.Block()) {
+					stored = true
+				}
+			}
+			if !stored {
+				return true
 			}
 		}
 	}
